@@ -1397,3 +1397,63 @@ def rule_origin_convex(db, chk, cfg, rule="ORIGIN.convex", names=("GetSegmentInt
                               "choice or the mean of two of them - it need not lie anywhere near the data, and for far-away coordinates the double loses the crossing's low bits "
                               "(the formula stays algebraically right: the origin cancels)" % (f.qual, canon(first)[:70]), where(first), cfg=cfg)
     return n
+
+
+# ---------------------------------------------------------------------------
+# CLAMP.endpoint: a segment that ends (or starts) exactly on the other one meets it in that end point
+# ---------------------------------------------------------------------------
+
+def rule_clamp_endpoint(db, chk, cfg, rule="CLAMP.endpoint"):
+    """GetSegmentIntersectPt(a, b, c, d, ip) with the first segment ending exactly on the second (parameter t == 1) or starting on it
+    (t == 0): the crossing *is* that end point, whatever branch the function takes for the boundary value of t (a clamp that stores a
+    whole point, or the general formula).  Every instantiated variant is executed on exact small-integer scenarios - four directions of
+    the first segment, horizontal and vertical second segment, both ends - and must leave ip equal to the end point."""
+    from ..evalx import Interp, Unsupported
+    fs = [f for f in db.funcs if f.name == "GetSegmentIntersectPt" and not f.is_pattern and f.body is not None and len(f.params) == 5]
+    if not fs:
+        raise AnalysisBroken("CLAMP.endpoint: GetSegmentIntersectPt not found (%s)" % cfg)
+    n = 0
+    for f in fs:
+        P = [p.get("name") for p in f.params]
+        bad = None
+        for horizontal in (True, False):
+            for far in ((0, 0), (20, 0), (0, 20), (20, 20), (4, 0), (0, 16)):      # the other end of the first segment, off the second one's line
+                for touch_is_b in (True, False):
+                    touch = (10, 10)
+                    c, d = ((0, 10), (40, 10)) if horizontal else ((10, 0), (10, 40))
+                    if (horizontal and far[1] == 10) or (not horizontal and far[0] == 10):
+                        continue
+                    a, b = (far, touch) if touch_is_b else (touch, far)
+                    pts = dict(zip(P[:4], (a, b, c, d)))
+                    env = {}
+                    for k, (x, y) in pts.items():
+                        env[k + ".x"], env[k + ".y"] = x, y
+                    stored = []
+                    def hook(name, argv, nd):
+                        if name == "operator=" and nd.get("kind") == "CXXOperatorCallExpr":
+                            stored.append(nd)
+                            return None
+                        return NotImplemented
+                    it = Interp(db, env, [], call_hook=hook)
+                    try:
+                        ret = it.run_function(f)
+                    except Unsupported as e:
+                        raise AnalysisBroken("CLAMP.endpoint: cannot interpret GetSegmentIntersectPt (%s): %s" % (cfg, e))
+                    got = None
+                    if stored:
+                        rhs = strip(kids(stored[-1])[2]) if len(kids(stored[-1])) == 3 else None
+                        nm = rhs.get("referencedDecl", {}).get("name") if rhs is not None and rhs.get("kind") == "DeclRefExpr" else None
+                        got = pts.get(nm)
+                    elif "%s.x" % P[4] in it.env:
+                        got = (it.env["%s.x" % P[4]], it.env["%s.y" % P[4]])
+                    n += 1
+                    ok = bool(ret) and got is not None and tuple(got) == touch
+                    chk.instance(rule, {"variant": f.sig[:40], "first_segment": "%s-%s" % (a, b), "second_segment": "%s-%s" % (c, d), "ip": got, "cfg": cfg}
+                                 if (not ok or n % 8 == 1) else None, ok=ok)
+                    if not ok and bad is None:
+                        bad = (a, b, c, d, got, ret)
+        if bad:
+            a, b, c, d, got, ret = bad
+            chk.violation(rule, f.qual, f.sig[:40], "GetSegmentIntersectPt(%s, %s, %s, %s): the first segment %s exactly on the second one, so the crossing is (10, 10); the "
+                          "function returns %s with ip = %s - a point that is not on the first segment" % (a, b, c, d, "ends" if b == (10, 10) else "starts", ret, got), f.where, cfg=cfg)
+    return n
